@@ -1,47 +1,4 @@
-(* GENERATED by /verif/translator/gen.py from rodbus/src/client/task.rs, rodbus/src/error.rs, rodbus/src/client/message.rs, rodbus/src/common/frame.rs, rodbus/src/types.rs -- do not edit *)
-From Coq Require Import NArith List String.
-Import ListNotations.
-Local Open Scope N_scope.
-
-(* error.rs: enum RequestError (payloads dropped) *)
-Inductive request_error := ReIo | ReException | ReBadRequest | ReBadFrame | ReBadResponse | ReInternal | ReResponseTimeout | ReNoConnection | ReShutdown.
-(* client/task.rs: enum SessionError (payloads dropped) *)
-Inductive session_error := SeIoError | SeBadFrame | SeDisabled | SeMaxTimeouts | SeShutdown.
-
-(* SessionError::from_request_err: which request errors end the session *)
-Definition from_request_err (e : request_error) : option session_error :=
-  match e with
-  | ReIo => Some SeIoError
-  | ReException => None
-  | ReBadRequest => None
-  | ReBadFrame => Some SeBadFrame
-  | ReBadResponse => None
-  | ReInternal => None
-  | ReResponseTimeout => None
-  | ReNoConnection => None
-  | ReShutdown => None
-  end.
-
-(* fail_next_request: a request taken while not connected fails with *)
-Definition not_connected_error : request_error := ReNoConnection.
-(* run_one_request: the error that increments the timeout counter (every other outcome resets it) *)
-Definition counted_error : request_error := ReResponseTimeout.
-Definition success_resets_counter : bool := true.
-(* execute_request: the deadline branch returns *)
-Definition deadline_error : request_error := ReResponseTimeout.
-(* Promise::drop completes a still-pending promise with *)
-Definition drop_error : request_error := ReShutdown.
-(* a send on a closed queue maps to *)
-Definition send_closed_error : request_error := ReShutdown.
-Definition recv_closed_error : request_error := ReShutdown.
-
-(* TimeoutCounter::increment: current = current.saturating_add(1); limit reached when *)
-Definition counter_limit_reached (current max : N) : bool := N.leb max current.
-Definition counter_reset_value : N := 0.
-
-(* TxId::next: returns the current value; wraps to 0 after *)
-Definition txid_max : N := 65535.
-
-(* ClientOptions::default() *)
-Definition default_max_queued_requests : nat := 16.
-Definition default_max_timeouts : option N := None.
+(* GENERATED stub: translator could not parse the source: from_request_err: pattern not understood: RequestError::BadFrame(
+                FrameParseError::CrcValidationFailure(_, _)
+                | FrameParseError::UnknownFunctionCode(_)
+                 *)
